@@ -21,7 +21,7 @@ EXH_SZ = {0: [(2,), (3,), (1,)], 1: [(1, 2), (3, 1), (2, 2)], 2: [(2, 1), (1, 3)
 KINDS = ["ctor", "dtor", "copyCtor", "moveCtor", "copyAssign", "moveAssign", "write", "convert", "dumpLoad"]
 
 META = {
-    "drivers": ["heapcheck"],
+    "drivers": ["heapcheck", "impcheck"],
     "rule": "case = (family of field types, build config, operation list); one case per history and config; non-trivial when at least "
             "two operations changed the pool and at least one of them is a copy / move / assignment / conversion / dump-load. "
             "Exhaustive part: every well-typed history up to the tier's length whose first operation is a constructor "
@@ -565,7 +565,12 @@ def evaluate(ctx, plan, cfgs, shrink=True):
 def run(ctx):
     rnd = random.Random(ctx.seed * 104729 + 12)
     plan = []
-    if ctx.quick:
+    # the tie through translation (DESIGN.md §11.6): the copy members of array::owning_data_t as written are the scripts the theorems
+    # `Covfie.Heap.copy_*_translated` are about; if their text (or the class's members / defaulted moves) changed, the thorough
+    # tier's histories run
+    from harness import translib as T
+    tie = T.Tie(ctx, list(T.OWN))
+    if ctx.quick and not tie.changed():
         for fam in (0, 1):
             plan.append((fam, "exhaustive", exhaustive(fam, 3, 3, False)))
         for fam in (2, 3):
@@ -582,6 +587,7 @@ def run(ctx):
             plan.append((fam, "random", [random_history(rnd, fam, 50) for _ in range(5000)]))
         cfgs = ["dbg", "rel"]
     corr = evaluate(ctx, plan, cfgs)
+    tie.merge(corr)
     corr.notes.append("exhaustive part: every well-typed history up to the tier's length over the listed slots / types / operation kinds "
                       "(first operation a constructor); random part seeded; every history ends by destroying all slots (leak check)")
     return corr
